@@ -4,6 +4,7 @@ from props.common import svt, gens, enc_failure_info, summarize_cfg, ref_decode_
 
 ID = "C03"
 LEVEL = "exploration"
+TAG_KEYS = True   # violation keys get the configuration feature tag appended (engine.feature_tag)
 RULE = ("Hypothesis draws histories: N in 0..70 concentrated around multiples of the mini-GOP size and of the intra period (+-2), GOP shape "
         "(hierarchical levels 0-5, intra period, IDR/CRA, overlays, look-ahead, TPL), strictly increasing pts sequences with arbitrary int64 "
         "start and realistic per-frame gaps, unique p_app_private tokens, recon on/off; the application drains after every send. Oracle: exactly N "
